@@ -1,31 +1,94 @@
-//! probe (to be replaced)
-use graphql_network_protocol::GraphQLAndJavascriptProfile;
-use intern::string_key::Intern;
-use isograph_compiler::CompilerState;
-use isograph_config::create_config;
-use std::path::PathBuf;
+//! Harness of the `printers` family (C11, C12, C26, C27).
+//!
+//! Engines (env `HX_ENGINE`):
+//!   `printers` — compile whole projects with the real compiler in-process, dump the printer inputs
+//!                through the hook `artifact_content::verif`, answer with the bytes of the generated
+//!                files.  Every project is compiled in a fresh child process (`one <spec>`): the
+//!                iteration order of the compiler's maps is the order of interning, which depends
+//!                on the history of the process.
+//!   `alias`    — arbitrary field names / argument lists through the Rust alias function and the
+//!                printers, and through the runtime's key functions (cut out of cache.ts, run under
+//!                node).
+//! `HX_PROP` (C11 | C12 | C26 | C27) selects the op prefix, i.e. which oracle the driver evaluates.
+mod alias;
+mod project;
+
+use hx_common::*;
+use std::collections::HashMap;
+use std::process::Command;
+
+fn prop() -> String {
+    std::env::var("HX_PROP").unwrap_or_else(|_| "C11".to_string())
+}
+
+/// Run `one <spec>` in a fresh process; returns its `request \t => \t answer` lines.
+fn run_one(spec: &str) -> Vec<(String, String)> {
+    let exe = std::env::current_exe().expect("current_exe");
+    let out = Command::new(exe)
+        .arg("one")
+        .arg(spec)
+        .env("HX_PROP", prop())
+        .output()
+        .expect("spawn one");
+    let text = String::from_utf8_lossy(&out.stdout);
+    let mut res = vec![];
+    for line in text.lines() {
+        if let Some((req, ans)) = line.split_once("\t=>\t") {
+            res.push((req.to_string(), ans.to_string()));
+        }
+    }
+    if res.is_empty() {
+        let err = String::from_utf8_lossy(&out.stderr);
+        eprintln!("one {spec}: no lines; stderr: {}", &err[..err.len().min(2000)]);
+    }
+    res
+}
 
 fn main() {
     let args: Vec<String> = std::env::args().collect();
-    let config_path = PathBuf::from(&args[1]);
-    let cwd = std::env::current_dir().unwrap();
-    let cwd = cwd.to_str().unwrap().intern().into();
-    let config = create_config(&config_path, cwd);
-    let state = CompilerState::<GraphQLAndJavascriptProfile>::new(config, cwd).unwrap_or_else(|e| panic!("{}", e));
-    let (result, lines) = artifact_content::verif::verif_generate_and_dump(&state.db);
-    match result {
-        Ok((artifacts, _)) => {
-            for a in artifacts.iter() {
-                let p = match a.artifact_path.type_and_field {
-                    Some(tf) => format!("{}/{}/{}", tf.parent_entity_name, tf.selectable_name, a.artifact_path.file_name),
-                    None => a.artifact_path.file_name.to_string(),
-                };
-                eprintln!("artifact {} {}", p, a.file_content.len());
-            }
+    if args.get(1).map(|s| s.as_str()) == Some("one") {
+        quiet_panics();
+        project::one(&args[2], &prop());
+        return;
+    }
+    if args.get(1).map(|s| s.as_str()) == Some("specs") {
+        for s in project::catalog() {
+            println!("{s}");
         }
-        Err(e) => { for d in e.iter() { eprintln!("DIAG {}", d.printable(state.db.print_location_fn(true))); } }
+        return;
     }
-    for l in lines {
-        println!("{}", l);
+    let engine = std::env::var("HX_ENGINE").unwrap_or_else(|_| "printers".to_string());
+    if engine == "alias" {
+        alias::main();
+        return;
     }
+    let mut cache: HashMap<String, HashMap<String, String>> = HashMap::new();
+    main_loop(
+        &|r, i| {
+            let spec = project::spec_for_case(r, i, &prop());
+            run_one(&spec).into_iter().map(|(req, _)| req).collect()
+        },
+        &mut |f| {
+            if f.len() < 2 {
+                return "bad-op".to_string();
+            }
+            let spec = f[1].to_string();
+            let req = f.join("\t");
+            for attempt in 0..3 {
+                let known = cache.entry(spec.clone()).or_default();
+                if let Some(ans) = known.get(&req) {
+                    return ans.clone();
+                }
+                if attempt > 0 || known.is_empty() {
+                    for (r, a) in run_one(&spec) {
+                        cache.entry(spec.clone()).or_default().insert(r, a);
+                    }
+                }
+            }
+            match cache.get(&spec).and_then(|m| m.get(&req)) {
+                Some(ans) => ans.clone(),
+                None => "missing".to_string(),
+            }
+        },
+    );
 }
